@@ -557,6 +557,8 @@ class GroupValueWrite(APCI):
         if isinstance(self.value, DPTBinary):
             return encode_cmd_and_payload(self.CODE, encoded_payload=self.value.value)
 
+        if not self.value.value:
+            raise ConversionError("An empty DPTArray can not be encoded.")
         return encode_cmd_and_payload(
             self.CODE, appended_payload=bytes(self.value.value)
         )
@@ -595,6 +597,8 @@ class GroupValueResponse(APCI):
         """Serialize to KNX/IP raw data."""
         if isinstance(self.value, DPTBinary):
             return encode_cmd_and_payload(self.CODE, encoded_payload=self.value.value)
+        if not self.value.value:
+            raise ConversionError("An empty DPTArray can not be encoded.")
         return encode_cmd_and_payload(
             self.CODE, appended_payload=bytes(self.value.value)
         )
